@@ -424,10 +424,26 @@ def _reduction_loop(ctx):
     table_of = lambda p: dict(getattr(p, 'hint_recursable_to_depth', {}) or {}) if p is not None else {}
     HS = 'beartype._check.cls.hint.hintsane.'
     RR = 'beartype._check.convert._reduce._redrecurse.'
-    F.stubs[RR + 'make_hint_sane_recursable'] = lambda e, a, k: _Sane(
-        k['hint_nonrecursable'], {**table_of(k.get('hint_parent_sane')), k['hint_recursable']: 1})
-    F.stubs[HS + 'make_hint_sane'] = lambda e, a, k: _Sane(k.get('hint', a[0] if a else None), table_of(k.get('hint_parent_sane')))
-    F.stubs[RR + 'is_hint_recursive'] = lambda e, a, k: any(x is k['hint'] for x in table_of(k.get('hint_parent_sane')))
+    from sa.fold import bind_call
+    fv_rec = F.const(RR[:-1], 'make_hint_sane_recursable')
+    fv_isr = F.const(RR[:-1], 'is_hint_recursive')
+    fv_mk = F.const(HS[:-1], 'make_hint_sane')
+    ctx.require(all(isinstance(x, FuncVal) for x in (fv_rec, fv_isr, fv_mk)), 'anchor vanished: the recursion-guard helpers of the reducers')
+
+    def st_rec(e, a, k):
+        b = bind_call(fv_rec, a, k)
+        return _Sane(b['hint_nonrecursable'], {**table_of(b.get('hint_parent_sane')), b['hint_recursable']: 1})
+
+    def st_mk(e, a, k):
+        b = bind_call(fv_mk, a, k)
+        return _Sane(b.get('hint'), table_of(b.get('hint_parent_sane')))
+
+    def st_isr(e, a, k):
+        b = bind_call(fv_isr, a, k)
+        return any(x is b['hint'] for x in table_of(b.get('hint_parent_sane')))
+    F.stubs[RR + 'make_hint_sane_recursable'] = st_rec
+    F.stubs[HS + 'make_hint_sane'] = st_mk
+    F.stubs[RR + 'is_hint_recursive'] = st_isr
     F.stubs['beartype._util.error.utilerrraise.reraise_exception_placeholder'] = \
         lambda e, a, k: (_ for _ in ()).throw(_Abort(f'reduce_hint re-raises {k.get("exception", a[0] if a else None)!r}'))
 
